@@ -18,7 +18,7 @@ package pql
 //@ loop 1
 //@   invariant -1 <= rangeindex && rangeindex < len(name)
 //@   invariant EscQ(name, 34, rangeindex + 1, out(sb)) == EscQ(name, 34, 0, OByte(old(out(sb)), 34))
-//@   invariant nbs(out(sb)) == nbs(old(out(sb)))
+//@   invariant @nobackslash: nbs(out(sb)) == nbs(old(out(sb)))
 //@   decreases len(name) - rangeindex
 
 //@ func pql.quoteSQLString
@@ -30,7 +30,7 @@ package pql
 //@ loop 1
 //@   invariant -1 <= rangeindex && rangeindex < len(s)
 //@   invariant EscQ(s, 39, rangeindex + 1, out(sb)) == EscQ(s, 39, 0, OByte(old(out(sb)), 39))
-//@   invariant nbs(out(sb)) == nbs(old(out(sb)))
+//@   invariant @nobackslash: nbs(out(sb)) == nbs(old(out(sb)))
 //@   decreases len(s) - rangeindex
 
 // ---------------------------------------------------------------- expressions
